@@ -790,7 +790,7 @@ fn main() {
                 .ok()
                 .and_then(|s| s.split_once('/').map(|(a, b)| (a.parse::<u64>().unwrap_or(0), b.parse::<u64>().unwrap_or(1).max(1))))
                 .unwrap_or((0, 1));
-            let total = env_u64("VERIF_HTTP_CASES", if thorough { 1_600_000 } else { 40_000 });
+            let total = env_u64("VERIF_HTTP_CASES", if thorough { 1_600_000 } else { 80_000 });
             let n = total / nshards + if shard < total % nshards { 1 } else { 0 };
             let mut env = Env::start(PathBuf::from(&args[3]).join(format!("shard-{shard}")));
             let mut r = Rng::new(seed ^ 0x48545450 ^ shard.wrapping_mul(0x9E37_79B9_7F4A_7C15));
